@@ -138,10 +138,20 @@ def stepCmdT (sc : Scripts) (w : World) : Cmd → World × List Ev × List Strin
   | .tick =>
     if w.crashed then (w, [], [])
     else
-      match applyRp w with
-      | (w1, e1) =>
-        match tickT sc w1 with
-        | (w2, e2, tg) => (w2, e1 ++ e2, (e1.map (fun _ => "replace_programs:program-swapped")) ++ tg)
+      match tickCore sc { w with cg := none, tflags := 0 } with
+      | (w0, e0) =>
+        match applyRp { w0 with tflags := w.tflags } with
+        | (w1, e1) =>
+          match tickT sc w1 with
+          | (w2, e2, tg) =>
+            let tg := "backend.start-up-call" :: (e1.map (fun _ => "replace_programs:program-swapped")) ++ tg
+            if e2.contains .tickAbort then
+              match morePasses sc maxPass w2 with
+              | (w3, e3) => (w3, e0 ++ e1 ++ e2 ++ e3 ++ [.cgAfter w3.cg],
+                             tg ++ "backend.further-passes-after-error" ::
+                               (if e3.contains .tickBegin then ["backend.tick-served-right-after-an-abandoned-round"] else []) ++
+                               (if e3.contains .passLimit then ["backend.pass-limit"] else []))
+            else (w2, e0 ++ e1 ++ e2 ++ [.cgAfter w2.cg], tg)
   | .op self op =>
     if w.crashed then (w, [], [])
     else if !w.known.contains self then (w, [.topNoObj self], [])
